@@ -54,6 +54,32 @@ def variations(ctx, cfgs, n_var):
     return out
 
 
+def water_switch_overrides():
+    """single water molecule with molecule/atom mode switching added (three point masses per composite object;
+    no shipped configuration combines the switcher with more than two)"""
+    return {
+        "TagActivator": {"taggers": "harmonic (factor_type_map_in_state_tagger), bending (factor_type_map_in_state_tagger), "
+                                    "sampling (no_in_state_tagger), end_of_chain (active_global_state_in_state_tagger), "
+                                    "end_of_run (no_in_state_tagger), start_of_run (no_in_state_tagger), "
+                                    "leaf_to_root (active_root_unit_in_state_tagger), "
+                                    "root_to_leaf (active_root_unit_in_state_tagger)"},
+        "RootToLeaf": {"create": "harmonic, bending, leaf_to_root, end_of_chain", "trash": "root_to_leaf, end_of_chain",
+                       "activate": "harmonic, bending, leaf_to_root", "deactivate": "root_to_leaf",
+                       "event_handler": "root_to_leaf_mode (root_leaf_unit_active_switcher)"},
+        "RootToLeafMode": {"chain_length": "0.7", "aim_mode": "leaf_unit_active"},
+        "LeafToRoot": {"trash": "harmonic, bending, leaf_to_root, end_of_chain", "create": "root_to_leaf, end_of_chain",
+                       "activate": "root_to_leaf", "deactivate": "harmonic, bending, leaf_to_root",
+                       "event_handler": "leaf_to_root_mode (root_leaf_unit_active_switcher)"},
+        "LeafToRootMode": {"chain_length": "0.69", "aim_mode": "root_unit_active"},
+        "StartOfRun": {"create": "harmonic, bending, sampling, end_of_chain, end_of_run, leaf_to_root",
+                       "activate": "harmonic, bending, sampling, leaf_to_root, end_of_run, end_of_chain",
+                       "deactivate": "root_to_leaf"},
+        "EndOfRun": {"trash": "end_of_chain, harmonic, bending, end_of_run, leaf_to_root, root_to_leaf"},
+        "SingleIndependentActivePeriodicDirectionEndOfChainEventHandler": {"chain_time": "0.5"},
+    }
+
+
+
 def crowded_jobs(cfgs):
     """Deterministic extra jobs: many units in few cells (several units per cell, surplus lists in use) and
     three composite objects with molecule/atom mode switching (two active leaves of one object at once)."""
@@ -79,6 +105,12 @@ def crowded_jobs(cfgs):
                                 "HypercubicSetting": {"beta": beta},
                                 "CoulombNearby": {"number_event_handlers": 40},
                                 "CoulombSurplus": {"number_event_handlers": 40}}))
+        if c.endswith("water/single_molecule.ini"):
+            # molecule/atom mode switching with THREE point masses per composite object: one and three molecules
+            out.append((c, water_switch_overrides()))
+            ov = water_switch_overrides()
+            ov["RandomInputHandler"] = {"number_of_root_nodes": 3}
+            out.append((c, ov))
         if c.endswith("dipoles/dipole_motion.ini"):
             ov = {"RandomInputHandler": {"number_of_root_nodes": 3}}
             for sec in ("HarmonicLeaf", "CoulombLeaf", "RepulsiveLeaf", "CoulombRoot", "RepulsiveRoot"):
